@@ -205,9 +205,12 @@ func (s *Service) prune(ctx context.Context) {
 				failedSet[eh.Height()] = struct{}{}
 				failed++
 			} else {
-				lastPrunedHeader = eh
 				successful++
 			}
+			// failed heights are recorded in the checkpoint and retried on the next cycle, so the
+			// cursor moves past them as well. Otherwise a full batch that fails entirely is found
+			// again and again within the same cycle, which then never terminates.
+			lastPrunedHeader = eh
 		}
 
 		err = s.updateCheckpoint(s.ctx, lastPrunedHeader.Height(), failedSet)
